@@ -46,7 +46,6 @@ FUNCTIONS = [
     ("stepup/core/startup.py", None, "rescan_files"),
     ("stepup/core/startup.py", None, "rescan_nglobs"),
     ("stepup/core/executor.py", "Executor", "_run_hash_job"),
-    ("stepup/core/executor.py", "Executor", "try_skip_job"),
     ("stepup/core/executor.py", "Executor", "validate_dynamic_job"),
     ("stepup/core/executor.py", "Executor", "_reset_step_to_pending"),
     ("stepup/core/workflow.py", "Workflow", "mark_step_pending"),
@@ -71,9 +70,6 @@ FINGERPRINTS = {
     "stepup/core/startup.py:rescan_nglobs": ("447d45a8dbb23181",),
     # first shape: stale CONFIRMED results are dropped (fix a139b14); second: the shape before it
     "stepup/core/executor.py:Executor._run_hash_job": ("1c00d122f33c1535", "d18aa73b3fe5cff5"),
-    # first shape: the recording transaction re-reads the input records and sends an overtaken check back to
-    # PENDING with its hash (fix 3ce20a7, D37); second: the shape before it
-    "stepup/core/executor.py:Executor.try_skip_job": ("cd8f2ddadd897a04", "decd09f009978afd"),
     # first shape: an unchanged validation leaves the step PENDING, deferred iff one of its dynamic inputs is
     # still unusable, decided in the recording transaction (fix 84081f2, D39); second: PENDING *and deferred*
     # unconditionally (fix d760e3e, D36); third: PENDING without the flag (the same job is dispatched again at once).
@@ -323,6 +319,96 @@ def _env_rescan_facts(tree):
     return stores
 
 
+# Executor.try_skip_job is translated structurally: the part up to and including the comparison of the output
+# digests is fingerprinted (TRY_SKIP_PREFIX), the rest - the transaction that records the outcome - is interpreted
+# for both values of `overtaken` (_skip_tail_outcomes), so that a variant of that part is TRANSLATED
+# (gen_skip_overtaken_outcome) and breaks a named theorem instead of a fingerprint.
+TRY_SKIP_PREFIX = ("03f570213f808d20",)
+_SKIP_EFFECTS = {"set_state": "set_state", "_reset_step_to_pending": "reset_drop_hash",
+                 "update_file_hashes": "update_file_hashes", "mark_completed": "mark_completed", "_skip": "skip"}
+_SKIP_NEUTRAL = {"_report_step_counts"}
+
+
+def _call_of(stmt):
+    v = stmt.value if isinstance(stmt, ast.Expr) else None
+    if isinstance(v, ast.Await):
+        v = v.value
+    return v if isinstance(v, ast.Call) and isinstance(v.func, ast.Attribute) else None
+
+
+def _skip_tail_effects(stmts, overtaken):
+    """Effects of the tail of try_skip_job for one value of `overtaken`: list of effect names, in order."""
+    out = []
+
+    def run(body):
+        for st in body:
+            if isinstance(st, ast.Return):
+                return True
+            if isinstance(st, ast.AsyncWith):
+                if run(st.body):
+                    return True
+                continue
+            if isinstance(st, ast.Assign) and len(st.targets) == 1 and isinstance(st.targets[0], ast.Name) \
+                    and st.targets[0].id == "overtaken":
+                if "_inputs_overtaken(step, inp_hashes)" not in ast.unparse(st.value):
+                    raise TranslatorError("try_skip_job: `overtaken` is not self._inputs_overtaken(step, inp_hashes)")
+                continue
+            if isinstance(st, ast.If):
+                test = ast.unparse(st.test)
+                if test == "overtaken":
+                    branch = st.body if overtaken else st.orelse
+                elif test == "not overtaken":
+                    branch = st.orelse if overtaken else st.body
+                else:
+                    raise TranslatorError(f"try_skip_job: condition in the recording part not recognised: {test}")
+                if run(branch):
+                    return True
+                continue
+            call = _call_of(st)
+            if call is None:
+                raise TranslatorError(f"try_skip_job: statement in the recording part not recognised: {ast.unparse(st)[:80]}")
+            name = call.func.attr
+            if name in _SKIP_NEUTRAL:
+                continue
+            if name not in _SKIP_EFFECTS:
+                raise TranslatorError(f"try_skip_job: call in the recording part not recognised: {name}")
+            eff = _SKIP_EFFECTS[name]
+            if eff == "set_state":
+                args = [ast.unparse(a) for a in call.args]
+                if args != ["StepState.PENDING"] or call.keywords:
+                    raise TranslatorError(f"try_skip_job: set_state{args} in the recording part")
+                eff = "pending_keep_hash"
+            out.append(eff)
+        return False
+    run(stmts)
+    return out
+
+
+def _skip_job_facts(tree):
+    """(fingerprint of the checking part, outcome of an overtaken check: 0 = there is no such test (before 3ce20a7),
+    1 = back to PENDING with the stored hash, 2 = _reset_step_to_pending: the hash is dropped)."""
+    fn = find_function(tree, "try_skip_job", "Executor")
+    body = [s for s in fn.body if not (isinstance(s, ast.Expr) and isinstance(s.value, ast.Constant))]
+    cut = next((i for i, s in enumerate(body) if isinstance(s, ast.If)
+                and ast.unparse(s.test) == "step_hash.out_digest != new_hash.out_digest"), None)
+    if cut is None:
+        raise TranslatorError("try_skip_job: comparison of the output digests not found")
+    prefix, tail = body[:cut + 1], body[cut + 1:]
+    fp = _fp_text("\n".join(ast.dump(s) for s in prefix))
+    normal = _skip_tail_effects(tail, False)
+    if sorted(normal) != ["mark_completed", "skip", "update_file_hashes"]:
+        raise TranslatorError(f"try_skip_job: a check that passes does {normal}")
+    uses = any(isinstance(n, ast.Name) and n.id == "overtaken" for s in tail for n in ast.walk(s))
+    if not uses:
+        return fp, 0
+    over = _skip_tail_effects(tail, True)
+    if over == ["pending_keep_hash"]:
+        return fp, 1
+    if over == ["reset_drop_hash"]:
+        return fp, 2
+    raise TranslatorError(f"try_skip_job: an overtaken check does {over}")
+
+
 def _validate_unchanged_deferred(tree):
     """validate_dynamic_job, inputs unchanged: the one transaction after the digest comparison sets the step
     PENDING; which deferred flag is passed?  0 = none / False, 1 = True, 2 = step.has_unusable_dynamic_input()
@@ -463,6 +549,11 @@ def generate(check=True):
     if drops_stale != (keep_states is not None):
         raise TranslatorError("_run_hash_job / _is_stale_confirmation: inconsistent shapes")
     validate_deferred = _validate_unchanged_deferred(ex_tree)
+    skip_prefix_fp, skip_overtaken = _skip_job_facts(ex_tree)
+    facts["try_skip_prefix"] = skip_prefix_fp
+    if check and skip_prefix_fp not in TRY_SKIP_PREFIX:
+        raise TranslatorError(f"stepup/core/executor.py:Executor.try_skip_job: the checking part has shape "
+                              f"{skip_prefix_fp}, not one the C04 model was written against")
     inp_env_src = _digest_env_source(ex_tree, "_compute_inp_step_hash")
     full_env_src = _digest_env_source(ex_tree, "_compute_full_step_hash")
     cmd_env_src = _base_env_facts(ex_tree)
@@ -530,6 +621,11 @@ def generate(check=True):
         "   deferred flag: 0 = not deferred, 1 = deferred, 2 = deferred iff Step.has_unusable_dynamic_input()",
         "   holds in the recording transaction (84081f2) *)",
         f"Definition gen_validate_flag_mode : N := {int(validate_deferred)}.",
+        "",
+        "(* Executor.try_skip_job, the transaction that records the outcome, when an input record was replaced while",
+        "   the step was being checked (_inputs_overtaken): 0 = no such test (before 3ce20a7), 1 = back to PENDING",
+        "   with the stored hash (checked again), 2 = _reset_step_to_pending: the hash is dropped (executed next) *)",
+        f"Definition gen_skip_overtaken_outcome : N := {int(skip_overtaken)}.",
         "",
         "(* Which mapping provides the values of a step's tracked environment variables: 1 = Executor.base_env",
         "   (os.environ overlaid with the director's infra_env), 2 = os.environ.",
